@@ -74,7 +74,7 @@ total!(c04_total_map, PairMap<2>, 6, 9);
 struct BytesT<'a>(#[serde(with = "crate::types::bytes_as_bytes")] &'a [u8]);
 //@ tier=quick class=core cap=900 bounds="every byte string 0..=12 as a byte array: length prefixes up to usize::MAX (10-byte varints) against the raw-pointer bounds check"
 total!(c04_total_bytes12, BytesT, 12, 15);
-//@ tier=thorough class=core cap=1800 bounds="every byte string 0..=11 as &str: length prefixes up to usize::MAX"
+//@ tier=thorough class=best cap=1800 bounds="every byte string 0..=11 as &str: length prefixes up to usize::MAX (UTF-8 validation over 11 symbolic bytes did not finish in 30 min)"
 total!(c04_total_str11, &str, 11, 14);
 
 /// zero-width elements: claimed length bounded by L (the property excludes them from the allocation
